@@ -9,6 +9,8 @@ claimed={
             note="Trusted: decimal and time stubs (validated against the libraries by setup self-tests), z3. Outside: >2 bookings, windows beyond maxdays/K periods, non-anchor years. Known finding C10-F15 (equity legs dropped) is carved out by signature.", ref="DESIGN.md §6 C10"),
  "C11":dict(text="Bounded model checking by symbolic execution of date.NewPartition/StartOf/EndOf/Align/Contains from /repo's SSA with start, end, probe date and --last symbolic; z3 decides partition, alignment, calendar-boundary and attribution assertions on every path; StartOf/EndOf are checked against an independent civil definition. Holds for all dates of the anchor years and windows up to the stated number of periods.",
             note="Trusted: time stub (UTC day numbers; validated against package time on all days of years 1-9999), z3. Outside: windows with more than K periods, years outside the anchor windows (400-year periodicity argument only).", ref="DESIGN.md §6 C11"),
+ "C07":dict(text="Bounded model checking by symbolic execution of the real scanner and parser (scanner.*, parser.*, directives.Range/Error) from /repo's SSA on input strings whose bytes are all symbolic (every byte string up to length n) and on directive templates with holes of k fully symbolic bytes; z3 decides no-panic, error-range, tree-containment, ordering, text-identity and gap (whitespace/comment only) assertions on every path; unicode/utf8 decoding is interpreted from the standard library source.",
+            note="Trusted: exact SMT predicates for unicode.IsLetter/IsDigit generated from the toolchain tables; fmt message text with symbolic operands is abstract; ASCII fast path of utf8.DecodeRuneInString; z3 5.1.0. Outside: strings longer than n (quick 4, thorough 6) that are not instances of the 18 templates with k<=2 (thorough 3) symbolic bytes; very long tokens.", ref="DESIGN.md §6 C07"),
 }
 na_reason={
  "C19":"goroutine interleavings of real sync/context/conc code cannot be encoded by the sequential SSA executor (no Go scheduler model); see DESIGN.md §7",
